@@ -231,6 +231,9 @@ func (e *Engine) harnessCall(st *State, fn *ssa.Function, args []Value) (Value, 
 		return And(asTerm(args[0]), asTerm(args[1])), true
 	case "verifOr":
 		return Or(asTerm(args[0]), asTerm(args[1])), true
+	case "verifIteInt":
+		// verifIteInt(c, a, b): c ? a : b as DATA (no branch, no feasibility queries)
+		return Ite(asTerm(args[0]), asTerm(args[1]), asTerm(args[2])), true
 	case "verifAssume":
 		e.checkOverflow(st, "before assumption")
 		c := asTerm(args[0])
